@@ -65,7 +65,7 @@ def pad_sweep(ctx, maxlen):
     if len(events) != 2 * (maxlen + 1):
         raise vlib.MachineryError("padding-sweep produced %d trace lines" % len(events))
     trace = "".join(json.dumps(e, separators=(",", ":")) + "\n" for e in events)
-    r = ctx.tlc("Tls", "TracePadding", "Trace_Padding.cfg", mode="trace", timeout=1500,
+    r = ctx.tlc("Tls", "TracePadding", "Trace_Padding.cfg", mode="trace", timeout=3000,
                 extra_files={"trace.ndjson": trace}, count=False, heap="4g")
     rep = [c for c in r.cases if c.get("done")]
     if not r.ok or not rep or rep[0]["consumed"] != len(events):
@@ -120,12 +120,12 @@ def _bclass(n, p, bad):
 
 def check_c43(ctx):
     q = ctx.tier == "quick"
-    mcd = {"SMALL": 10 if q else 13, "BIG": BIG_LENS}
+    mcd = {"SMALL": 10 if q else 12, "BIG": BIG_LENS}
     ctx.cov["constants"]["MC_Padding"] = mcd
-    ctx.tlc_must_pass("Tls", "Padding", "MC_Padding.cfg", defines=mcd, timeout=1500, coverage=False)
+    ctx.tlc_must_pass("Tls", "Padding", "MC_Padding.cfg", defines=mcd, timeout=3000, coverage=False)
     gd = {"SMALL": 9 if q else 12, "BIG": BIG_LENS, "VC": VCS}
     ctx.cov["constants"]["Gen_Padding"] = gd
-    r = ctx.tlc("Tls", "GenPadding", "Gen_Padding.cfg", defines=gd, timeout=1500, count=False)
+    r = ctx.tlc("Tls", "GenPadding", "Gen_Padding.cfg", defines=gd, timeout=3000, count=False)
     if not r.ok:
         raise vlib.MachineryError("GenPadding failed: %s %s" % (r.error or r.violation, r.out[-500:]))
     ctx.cov["rule"] = ("cases = every element of Padding!Space (complete: all lengths <= MaxSmall x every p in "
